@@ -88,6 +88,8 @@ func vh_C19_L2_backoff() {
 // ---- C19.L3: retry law of rtxTimer under every order of start/stop/expire/deliver.
 
 type vRtxObserver struct {
+	t         *rtxTimer // when set, callbacks check that the timer's mutex is free
+	heldInCb  bool
 	timeouts  int
 	failures  int
 	lastN     uint
@@ -96,6 +98,9 @@ type vRtxObserver struct {
 }
 
 func (o *vRtxObserver) onRetransmissionTimeout(id int, n uint) {
+	if o.t != nil && vMutexHeldNative(&o.t.mutex) {
+		o.heldInCb = true
+	}
 	o.timeouts++
 	if n != o.lastN+1 {
 		o.inOrderOK = false
@@ -105,6 +110,9 @@ func (o *vRtxObserver) onRetransmissionTimeout(id int, n uint) {
 }
 
 func (o *vRtxObserver) onRetransmissionFailure(id int) {
+	if o.t != nil && vMutexHeldNative(&o.t.mutex) {
+		o.heldInCb = true
+	}
 	o.failures++
 	o.lastID = id
 }
@@ -114,6 +122,7 @@ func vh_C19_L3_retry_law() {
 	obs := &vRtxObserver{inOrderOK: true}
 	rtoMax := float64(60000)
 	t := newRTXTimer(7, obs, maxRetrans, rtoMax)
+	obs.t = t
 	// reference model
 	started, closed := false, false
 	var n uint         // live expiries since last start
@@ -187,6 +196,7 @@ func vh_C19_L3_retry_law() {
 			vassert(obs.failures == 0, "a timer without retry limit never reports failure")
 		}
 		vassert(t.isRunning() == started, "running state equals model")
+		vassert(!obs.heldInCb, "observer callbacks run without the timer's mutex held (they take the association lock)")
 	}
 	vobserve("timeouts", uint64(obs.timeouts))
 	vobserve("failures", uint64(obs.failures))
